@@ -411,6 +411,13 @@ class UCMM( device.Object ):
                 # Finally, use the method to process the request data
                 proceed		= method( data )
 
+            # The response must fit the (UINT) .length of the EtherNet/IP header; if it cannot be framed,
+            # nothing at all could be sent.  Answer with an (empty) error response instead.
+            if len( data.get( 'enip.input', b'' )) > 0xFFFF:
+                size		= len( data.enip.input )
+                data.enip.input	= bytearray()
+                raise AssertionError( "Response of %d bytes exceeds EtherNet/IP encapsulation capacity" % size )
+
         except Exception as exc:
             # On Exception, if we haven't specified a more detailed error code, return Service not
             # supported.
